@@ -65,6 +65,71 @@ D = {
  "C20_r2_2": "zero context delay no longer beats the default generator (`ok && !delay.IsZero()`)",
  "C20_r2_3": "decorator Close calls the wrapped Close only inside `closingOnce.Do` (retried Close never reaches it)",
 }
+
+D3 = {
+ "C01_r3_1": "`sendMessage` inlined into the batch loop, dispatcher goroutines capture the loop variable (batch Publish: m2 twice, m1 never)",
+ "C01_r3_2": "`topicSubscribers` returns `subscribers[:n:n]` (fan-out ≥ 3, a sibling leaves during dispatch: one branch misses the message)",
+ "C01_r3_3": "per-handler mutex around the handler call released without defer (handler panic wedges the stage)",
+ "C02_r3_1": "error switch: the `context.DeadlineExceeded` arm lost `msg.Nack()`",
+ "C02_r3_2": "`h.publisher == nil` checked before `len(produced) == 0` (nil-publisher handler with no output nacked for ever)",
+ "C02_r3_3": "RWMutex fast path in Ack/Nack without re-check under the write lock (handler's own settlement from a helper goroutine overridden)",
+ "C03_r3_1": "`ackSentType` atomic with a lock-free fast path (caller between state write and close sees Ack()==true, Acked() open)",
+ "C03_r3_2": "`TryLock` + wait-for-outcome select on channels captured as nil (zero-value message: overlapping call blocks for ever)",
+ "C03_r3_3": "`ackMutex` a lazily created `*sync.Mutex` (zero-value message: two first callers lock different mutexes)",
+ "C04_r3_1": "Publish reuses the caller's variadic slice (publisher edits through `batch[i]` leak into deliveries)",
+ "C04_r3_2": "per-redelivery context whose cancel is never called (copy delivered after a Nack stays live after its Ack)",
+ "C04_r3_3": "`Message.Copy` via `maps.Clone` (nil metadata delivered as nil map: subscriber's `Set` panics)",
+ "C05_r3_1": "`defer persistedMessagesLock.Unlock()` inside Publish (persistent+blocking: lock held through the ack wait)",
+ "C05_r3_2": "defensive copies skipped in blocking mode with one subscriber (publisher's own object, with its ack state, is delivered)",
+ "C05_r3_3": "Close takes `subscribersLock` before `close(g.closing)` (blocking Publish and Close wait for each other)",
+ "C06_r3_1": "CloseTimeout covers only the second wait (`handlersWg.Wait()` unbounded: Close hangs instead of timing out)",
+ "C06_r3_2": "`handlersWg.Done()` on a failed Subscribe (retried handler's loop not counted: Close returns nil while it runs)",
+ "C06_r3_3": "publisher close de-duplicated by publisher type name (second instance of the same type never closed)",
+ "C07_r3_1": "Close unlocks `closedLock` right after signalling (overlapping second Close returns while goroutines remain)",
+ "C07_r3_2": "`persistMessages` helper returns between Lock and `defer Unlock` (lock leaked: next Publish hangs after Close)",
+ "C07_r3_3": "decorator `closing` channel created once per decorator value (same value on two subscribers / twice in a chain: panic, drops)",
+ "C08_r3_1": "handler context added by an innermost publisher decorator (router's publisher decorators see empty context values)",
+ "C08_r3_2": "decorated-publisher cache keyed by publisher type name (two instances of one type share the first one's publisher)",
+ "C08_r3_3": "router's context decorator skipped for application-wrapped transform subscribers (context getters return \"\")",
+ "C09_r3_1": "router keeps the caller's decorator slice (caller edits/append on spare capacity change the chain)",
+ "C09_r3_2": "RunHandlers decorates in a first pass without the `started` check (decorators applied twice to running handlers)",
+ "C09_r3_3": "'already registered' middlewares skipped by code pointer (second closure from one constructor dropped)",
+ "C10_r3_1": "`close(r.closedCh)` after the timeout return (Close timed out: Run blocks for ever)",
+ "C10_r3_2": "handler.run waits on the router-wide running-handlers WaitGroup under the shared lock (Stop of a busy handler blocks the others)",
+ "C10_r3_3": "handler goroutine `TryLock`s `handlersLock` and returns on failure (Stopped() never closed)",
+ "C11_r3_1": "`topicLock` Load-then-Store + backlog append outside `persistedMessagesLock` (two first publishers: one backlog entry lost)",
+ "C11_r3_2": "blocking Publish returns before persisting when the topic has no subscribers",
+ "C11_r3_3": "per-subscriber 'already delivered' set keyed by UUID (distinct publications sharing a UUID dropped)",
+ "C12_r3_1": "MaxElapsedTime context derived from `context.Background()` (message-context cancel ignored)",
+ "C12_r3_2": "pause clamped to the remaining budget (retry after the deadline)",
+ "C12_r3_3": "'context ended' inferred from the error value (handler error wrapping context.Canceled stops retrying)",
+ "C13_r3_1": "poison-loop guard returns nil when subscribe topic = poison topic (acked, never published)",
+ "C13_r3_2": "`!shouldGoToPoisonQueue(err) || err == nil` (filter called with nil for every success)",
+ "C13_r3_3": "default filter excludes `context.Canceled`",
+ "C14_r3_1": "clean-up swaps the map and filters it without the lock (duplicates accepted during a pass)",
+ "C14_r3_2": "SHA-256 read limit rounded down to whole blocks",
+ "C14_r3_3": "clean-up deletes at most 1024 expired tags per tick",
+ "C15_r3_1": "command processor: `ctx` hoisted, shared by concurrent messages",
+ "C15_r3_2": "event bus caches GeneratePublishTopic by event name (content-derived topics wrong from the second event on)",
+ "C15_r3_3": "group processor: later handler's error after an earlier success is acked",
+ "C16_r3_1": "`Metadata.Set` deletes the key for an empty value (Copy loses \"\"-valued entries)",
+ "C16_r3_2": "reply error rebuilt with `fmt.Errorf(text)` (text used as format string)",
+ "C16_r3_3": "`proto.UnmarshalOptions{DiscardUnknown: true}`",
+ "C17_r3_1": "forwarder envelope payload as `string` (binary payloads corrupted at wrap time)",
+ "C17_r3_2": "forwarder 'loop guard': destination topic named like the forwarder topic treated as not unwrappable",
+ "C17_r3_3": "fanin handler returns the message in a slice allocated once (concurrent deliveries overwrite each other)",
+ "C18_r3_1": "hand-over select watches the caller's context instead of the derived time-out context",
+ "C18_r3_2": "reply error rebuilt with `fmt.Errorf(text)`",
+ "C18_r3_3": "time-out context armed only if the caller's context has no deadline",
+ "C19_r3_1": "`RecoveredPanicError.Cause()` returns nil for non-error panics (IgnoreErrors(Recoverer(h)) dereferences nil)",
+ "C19_r3_2": "Timeout restores `context.WithoutCancel(ctx)` (message detached from its parent for good)",
+ "C19_r3_3": "CircuitBreaker hands outputs over through a variable shared by concurrent calls",
+ "C20_r3_1": "metrics builder returns `NewCollector` instead of `ExistingCollector` on AlreadyRegistered",
+ "C20_r3_2": "decorator Subscribe: `subscribeWg.Add(1)` before the wrapped Subscribe, no Done on error",
+ "C20_r3_3": "`defer m.observe(ctx, labels, time.Now(), err)` (err evaluated at defer time: failures exported as success)",
+}
+D.update(D3)
+
 def short(c):
     if not c: return "–"
     if not c.get("detected"):
@@ -73,9 +138,11 @@ def short(c):
     if c.get("with_failing_input"):
         return "failing input, `%s`" % (c.get("monitor_rule") or "").replace("violated:", "")
     return "static legs only"
+import sys
+RND = sys.argv[1] if len(sys.argv) > 1 else "_r2_"
 rows = []
 for d in sorted(os.listdir(os.path.join(V, "seeded"))):
-    if "_r2_" not in d: continue
+    if RND not in d: continue
     m = json.load(open(os.path.join(V, "seeded", d, "meta.json")))
     rows.append("| %s | %s | %s | %s |" % (d, D.get(d, ""), short(m.get("check")), short(m.get("check_now"))))
 print("| Seed | change (what it needs to manifest) | checks at the time of seeding | current checks |")
